@@ -92,7 +92,12 @@ def run_job(job, out_dir):
     env.update(job.env)
     t0 = time.time()
     try:
-        p = subprocess.run(argv, cwd=job.cwd or VERIF, env=env, stdout=subprocess.PIPE, stderr=subprocess.STDOUT, timeout=job.timeout)
+        if getattr(job, "stderr_full", False):
+            # hostile process state: writes to standard error fail (ENOSPC) - the harness itself never writes there
+            with open("/dev/full", "w") as full:
+                p = subprocess.run(argv, cwd=job.cwd or VERIF, env=env, stdout=subprocess.PIPE, stderr=full, timeout=job.timeout)
+        else:
+            p = subprocess.run(argv, cwd=job.cwd or VERIF, env=env, stdout=subprocess.PIPE, stderr=subprocess.STDOUT, timeout=job.timeout)
         job.rc = p.returncode
         job.output = p.stdout.decode("utf-8", "replace")[-20000:]
     except subprocess.TimeoutExpired as e:
